@@ -174,8 +174,17 @@ def caller_src(sigs, rng):
             body.append(call + ';')
         else:
             rt = sg.ret
-            ctxsel = rng.randrange(4)
+            ctxsel = rng.randrange(5)
             if isinstance(rt, Agg):
+                if ctxsel == 4 and sg.leaves(rt, 'r'):
+                    # the result is passed on directly as a by-value argument: it is read through the returned address while new stack space is carved out
+                    out.append('static void sink%d(long pad, %s r, long pad2) {\n%s\n}' % (sg.k, sg.tname(rt), '\n'.join(dump_leaf(sg.k * 1000 + 900, path, s, bits) for (path, s, bits) in sg.leaves(rt, 'r'))))
+                    body.append('sink%d(7, %s, 8);' % (sg.k, call))
+                    if not sg.params and not sg.var:
+                        body.append('{ static char sb[sizeof(%s) + 64]; if (sizeof(%s) > 16) OUTV(%d, vrt_sret_call((void *)f%d, sb + 16) == (long)(sb + 16)); }' % (sg.tname(rt), sg.tname(rt), sg.k * 1000 + 901, sg.k))
+                    out.append('static void c%d(void) {\n%s\n}' % (sg.k, '\n'.join(body)))
+                    calls.append('c%d();' % sg.k)
+                    continue
                 if ctxsel == 0 and sg.leaves(rt, 'r'):
                     body.append('%s r = %s;' % (sg.tname(rt), call))
                 elif ctxsel == 1:
@@ -184,6 +193,8 @@ def caller_src(sigs, rng):
                     body.append('%s r; int pad1 = 3; r = (pad1 + 4 > 0) ? %s : %s;' % (sg.tname(rt), call, call))
                 for (path, s, bits) in sg.leaves(rt, 'r'):
                     body.append(dump_leaf(sg.k * 1000 + 900, path, s, bits))
+                if not sg.params and not sg.var:
+                    body.append('{ static char sb[sizeof(%s) + 64]; if (sizeof(%s) > 16) OUTV(%d, vrt_sret_call((void *)f%d, sb + 16) == (long)(sb + 16)); }' % (sg.tname(rt), sg.tname(rt), sg.k * 1000 + 901, sg.k))
             else:
                 cn = ctype.scalar_cname(rt.s)
                 if rt.s in ('ptr',):
@@ -266,6 +277,12 @@ def gen_sigs(rng, n_random, quick):
                 ret = rets[ri % len(rets)] if ri % 2 else retgens[ri % len(retgens)]()
                 sigs.append(Sig(k, params, ret, tag='grid|%s@gp=%d,fp=%d' % (cn, gp, fp)))
                 k += 1
+    # parameterless functions returning MEMORY-class aggregates: %rax must hold the caller's buffer address on return
+    for mk in (lambda: S('i64', 'i64', 'i64'), lambda: S(('i8', 20)), lambda: S('f64', 'f64', 'f64'), lambda: S(('i8', 17)), lambda: S('i64', 'f64', 'i32'), lambda: S(('i32', 75)),
+               lambda: S('f32', ('i16', 9)), lambda: S('i64', 'i64', 'i8')):
+        for rep in range(2):
+            sigs.append(Sig(k, [], mk(), tag='sret'))
+            k += 1
     # random signatures
     for _ in range(n_random):
         n = rng.choice([0, 1, 2, 3, 5, 8, 12])
